@@ -169,6 +169,25 @@ Definition db_cread (d : db) (slot : nat) : option (key * value) :=
   | Some c => cursor_read key value (d_chain d) c
   end.
 
+(* iwkv_cursor_is_matched_key: the key under the cursor, unpacked as a cursor reports it, against the caller's key; a number
+   key is given as 4 or 8 bytes (as for put/get) and compared as the 8-byte number.  The compound part is not compared
+   (it is reported next to the answer). *)
+Fixpoint bytes_eqb (a b : list Z) : bool :=
+  match a, b with
+  | [], [] => true
+  | x :: a', y :: b' => (x =? y) && bytes_eqb a' b'
+  | _, _ => false
+  end.
+Definition db_cmatch (d : db) (slot : nat) (k : list Z) : option bool :=
+  match db_cread d slot with
+  | None => None
+  | Some (k0, _) =>
+    let b := fst (api_key (d_mode d) k0) in
+    Some (if km_vnum (d_mode d)
+          then (Nat.eqb (length k) 4 || Nat.eqb (length k) 8) && bytes_eqb b (le_encode 8 (le_decode k))
+          else bytes_eqb b k)
+  end.
+
 (* iwkv_cursor_set: the record under the cursor gets a new value *)
 Definition db_cset (d : db) (slot : nat) (v : value) : rcode * db :=
   match cur_get (d_curs d) slot with
